@@ -68,10 +68,16 @@ class Report:
         return o
 
     def floor(self, rule, what, count, minimum):
+        """instance floors are evaluated at the end of the run (unmet_floors): a rule matching fewer instances
+        than confirmed by hand on the pinned tree is an analysis error - unless the run already found a
+        violation, which is reported first."""
         self.floors.append({"rule": rule, "what": what, "count": count, "floor": minimum})
-        if count < minimum:
-            raise AnalysisError("%s: %s matched %d instance(s), below the hand-confirmed floor %d "
-                                "(rule would pass vacuously)" % (rule, what, count, minimum))
+        if count == 0 and minimum > 0:
+            raise AnalysisError("%s: %s matched no instance at all (anchor vanished; the rule would pass vacuously)"
+                                % (rule, what))
+
+    def unmet_floors(self):
+        return [f for f in self.floors if f["count"] < f["floor"]]
 
     def info(self, msg):
         self.infos.append(msg)
